@@ -145,6 +145,9 @@ struct Config {
 	unsigned max_matchers = 12;
 };
 
+// numeric fetch ids are compared the way cJSON stores integers: saturated to the int range
+inline long long sat_int(double d) { if (d != d) return 0; if (d >= 2147483647.0) return 2147483647LL; if (d <= -2147483648.0) return -2147483648LL; return (long long)d; }
+
 inline bool valid_id(const Value *id) { return id && (id->is_str() || id->is_num()); }
 
 struct Model {
@@ -359,7 +362,7 @@ struct Model {
 			if (P("match")) return err("deprecated match");
 			const Value *fid = P("id");
 			if (!fid || !(fid->is_str() || fid->is_num())) return err("bad fetch id");
-			for (auto &f : p.fetches) if (f.id.t == fid->t && (fid->is_str() ? f.id.s == fid->s : (long long)f.id.d == (long long)fid->d)) return err("fetch id in use");
+			for (auto &f : p.fetches) if (f.id.t == fid->t && (fid->is_str() ? f.id.s == fid->s : sat_int(f.id.d) == sat_int(fid->d))) return err("fetch id in use");
 			Rule r = parse_rule(P("path"), cfg.max_matchers);
 			if (!r.valid) return err("bad rule");
 			// statement: a repeated option key is refused or treated as given once; unsettled shapes: refused or lenient
@@ -381,7 +384,7 @@ struct Model {
 			if (!fid || !(fid->is_str() || fid->is_num())) return err("bad fetch id");
 			for (size_t i = 0; i < p.fetches.size(); i++) {
 				Fetch &f = p.fetches[i];
-				if (f.id.t == fid->t && (fid->is_str() ? f.id.s == fid->s : (long long)f.id.d == (long long)fid->d)) {
+				if (f.id.t == fid->t && (fid->is_str() ? f.id.s == fid->s : sat_int(f.id.d) == sat_int(fid->d))) {
 					p.fetches.erase(p.fetches.begin() + i);
 					respond(x, pi, id, Exp::RESULT, "unfetch", 3);
 					stat["unfetch"]++;
